@@ -18,12 +18,12 @@ func init() {
 
 // wsOp: one WebSocket write/ping and the place where its context is decided.
 type wsOp struct {
-	short   string          // "Write" | "Ping"
-	owner   *ssa.Function   // function the operation is written in (for the obligation's name)
-	pos     ssa.Instruction // the operation (or the place a method value of it is handed on)
-	fn      *ssa.Function   // function in which the context value is chosen
-	ctx     ssa.Value       // that context value
-	at      *ssa.BasicBlock // block of fn in which it is used
+	short string          // "Write" | "Ping"
+	owner *ssa.Function   // function the operation is written in (for the obligation's name)
+	pos   ssa.Instruction // the operation (or the place a method value of it is handed on)
+	fn    *ssa.Function   // function in which the context value is chosen
+	ctx   ssa.Value       // that context value
+	at    *ssa.BasicBlock // block of fn in which it is used
 }
 
 // wsOps finds the operations. Normally the context is an argument of the call
